@@ -2,4 +2,4 @@ From Coq Require Import Extraction ExtrOcamlBasic.
 From PV Require Import Lib.ExtBase C28.Generated C28.Model C27.Model.
 Extraction "model.ml" ext_base_z ext_base_n ext_base_nat ext_base_res ext_base_list
   byteRangeEnd byteRangeValues validateByteRange contentsGapMatches bytesForByteRange
-  signedData boundaryOK applyHistorical docModifiedWith docModifiedP7With docModifiedP1With.
+  signedData boundaryOK applyHistorical docModifiedWith docModifiedP7With docModifiedP1With p7StatusOf.
